@@ -60,6 +60,7 @@ type seqRun struct {
 	dirSeenFull map[string]bool
 	dirRegained map[string]int
 	writesSince map[string]int
+	missLog     map[string]float64 // per regained directory: ln of the chance that a fair choice missed it so far
 	nontrivial  bool
 }
 
@@ -231,7 +232,7 @@ func (s *seqRun) faultAt(i int) bool {
 
 func seqExec(c SeqCase, choices []int32) RunOut {
 	s := &seqRun{c: c, m: refmodel.New(), idx: &valueIndex{}, states: map[uint64]bool{}, probes: map[string]uint64{},
-		faults: map[string]uint64{}, dirSeenFull: map[string]bool{}, dirRegained: map[string]int{}, writesSince: map[string]int{}}
+		faults: map[string]uint64{}, dirSeenFull: map[string]bool{}, dirRegained: map[string]int{}, writesSince: map[string]int{}, missLog: map[string]float64{}}
 	cfg := c.Sched.config(choices)
 	if cfg.Strategy == "" || cfg.Strategy == "uniform" {
 		cfg.Strategy = "seqbg"
